@@ -15,7 +15,7 @@ from ..infer import NODE, SLOT
 from ..model import AnalysisError, Func, iter_own, norm
 from ..pat import find, has, match, one
 from .trav import _if_chain
-from .util import raised_class, stmt_index
+from .util import cond_texts, exit_cases, find_cases, find_under, local_value, path_conds, reaching_values, split_cond, raised_class, stmt_index, stmts_before
 
 
 def _returns(f: Func) -> List[ast.Return]:
@@ -34,41 +34,36 @@ def exh5(ctx: Ctx) -> List[Ob]:
     obs: List[Ob] = []
     m = ctx.model
     f = m.func("Tree.__getitem__")
-    cfg = ctx.cfg(f)
     p = _first_param(f)
-    raises = {raised_class(n): n for n in iter_own(f.node) if isinstance(n, ast.Raise)}
-    for cls, pats, why in (
-        ("ValueError", [f"isinstance({p}, Node)"], "a node is not a key"),
-        ("KeyError", ["not $r", "len($r) == 0", "$r is None"], "no match"),
-        ("AmbiguousMatchError", ["len($r) > 1", "len($r) >= 2"], "several matches"),
+    cases = exit_cases(ctx, f)
+
+    def raised(c) -> Optional[str]:
+        return raised_class(c.stmt) if c.kind == "raise" else None
+
+    for cls, whens, why in (
+        ("ValueError", [[(f"isinstance({p}, Node)", True)]], "a node is not a key"),
+        ("KeyError", [[("$$r", False)], [("$$r is None", True)]], "no match"),
+        ("AmbiguousMatchError", [[("len($$r) > 1", True)], [("len($$r) >= 2", True)], [("len($$r) == 1", False)]], "several matches"),
     ):
-        r = raises.get(cls)
-        ok = r is not None
-        if ok:
-            par = m.parent_of(r)
-            ok = isinstance(par, ast.If) and any(match(x, par.test) is not None for x in pats)
-        obs.append(ctx.ob("EXH-5", ["C09"], f, f"raises {cls} for: {why}", r, ok, "" if ok else f"index access must raise {cls} for: {why}"))
-    # order: node_id lookup (int) -> data_id membership -> data
-    nid = [n for n in cfg.stmt_nodes() if n.kind == "test" and match(f"isinstance({p}, int)", n.ast) is not None]
-    did = [n for n in cfg.stmt_nodes() if n.kind == "test" and has(f"{p} in self._nodes_by_data_id", n.ast)]
-    ok = len(nid) == 1 and len(did) == 1 and cfg.dominated_by(did[0], lambda n: n is nid[0])
+        mine = [c for c in cases if raised(c) == cls]
+        ok = any(find_cases(mine, "raise", None, w) for w in whens)
+        obs.append(ctx.ob("EXH-5", ["C09"], f, f"raises {cls} for: {why}", mine[0].stmt if mine else None, ok, "" if ok else f"index access must raise {cls} for: {why}"))
+    # node_id: an int key that is a registered node_id returns that node ...
+    nid = [(c, e) for c, e in find_cases(cases, "return", "$$r", [(f"isinstance({p}, int)", True), ("$$r is None", False)])
+           if all(match(f"self._node_by_id.get({p})", v) is not None for v in reaching_values(ctx, f, c.stmt, c.value))]
+    obs.append(ctx.ob("EXH-5", ["C09", "C02"], f, "an int key that is a registered node_id returns that node", nid[0][0].stmt if nid else None, bool(nid),
+                      "" if nid else "node_id lookup broken"))
+    # ... and that lookup comes before the data_id index is consulted
+    did_calls = [n for n, _e in find(f"self.find_all(data_id={p})", f.node)]
+    ok = bool(nid) and len(did_calls) == 1 and any(any(x is nid[0][0].stmt for x in ast.walk(s_)) for s_ in stmts_before(ctx, f, did_calls[0]))
     obs.append(ctx.ob("EXH-5", ["C09", "C02"], f, "node_id is consulted before data_id", None, ok, "" if ok else "resolution order: node_id, then data_id, then data"))
-    if nid:
-        par = m.parent_of(nid[0].ast)
-        ok = isinstance(par, ast.If)
-        if ok:
-            a = one(f"$r = self._node_by_id.get({p})", par.body)
-            ok = a is not None and has("if $r is not None:\n    return $r", par.body, {"$r": a[1]["$r"]})
-        obs.append(ctx.ob("EXH-5", ["C09", "C02"], f, "an int key that is a registered node_id returns that node", None, ok, "" if ok else "node_id lookup broken"))
-    if did:
-        par = m.parent_of(did[0].ast)
-        ok = isinstance(par, ast.If) and len(par.body) == 1 and len(par.orelse) == 1
-        if ok:
-            a = match(f"$r = self.find_all(data_id={p})", par.body[0])
-            ok = a is not None and match(f"$r = self.find_all({p})", par.orelse[0], a) is not None
-            ok = ok and match(f"isinstance({p}, (int, str)) and {p} in self._nodes_by_data_id", par.test) is not None
+    if did_calls:
+        pc = path_conds(ctx, f, did_calls[0])
+        ok = any(pol and match(f"{p} in self._nodes_by_data_id", e) is not None for e, pol in pc) and any(pol and match(f"isinstance({p}, (int, str))", e) is not None for e, pol in pc)
+        plain = [n for n, _e in find(f"self.find_all({p})", f.node)]
+        ok = ok and len(plain) == 1 and any((not pol) and has(f"{p} in self._nodes_by_data_id", e) for e, pol in path_conds(ctx, f, plain[0]))
         obs.append(ctx.ob("EXH-5", ["C09", "C02"], f, "a key present in the data_id index is looked up as data_id, anything else as data", None, ok, "" if ok else "data_id before data"))
-    ret = [n for n in _returns(f) if match("$r[0]", n.value) is not None]
+    ret = find_cases(cases, "return", "$$r[0]")
     obs.append(ctx.ob("EXH-5", ["C09"], f, "the single match is returned", None, len(ret) == 1, ""))
     g = m.func("Tree.__contains__")
     q = _first_param(g)
@@ -76,14 +71,21 @@ def exh5(ctx: Ctx) -> List[Ob]:
     obs.append(ctx.ob("EXH-5", ["C09", "C02"], g, "`data in tree` is find_first(data) found", None, ok, "" if ok else "containment must agree with lookup"))
     for q in ("Tree.find_all", "Tree.find_first"):
         h = m.func(q)
-        ok = has("if data is not None:\n    ...", h.node) and has("data_id = self.calc_data_id(data)", h.node)
+        conv = find("data_id = self.calc_data_id(data)", h.node)
+        ok = len(conv) == 1 and any(pol and match("data is None", e) is not None for e, pol in [(e_, not p_) for e_, p_ in path_conds(ctx, h, conv[0][0])])
         obs.append(ctx.ob("EXH-5", ["C02", "C09"], h, f"{q}: data is converted with calc_data_id before the index is read", None, ok, "" if ok else "lookup by data must use the tree's id function"))
         gets = find("self._nodes_by_data_id.get(data_id)", h.node)
-        obs.append(ctx.ob("EXH-5", ["C02", "C09"], h, f"{q}: reads the clone list of data_id", None, len(gets) == 1, "" if gets else "index not consulted"))
+        obs.append(ctx.ob("EXH-5", ["C02", "C09"], h, f"{q}: reads the clone list of data_id", None, len(gets) >= 1, "" if gets else "index not consulted"))
     h = m.func("Tree.find_first")
-    ok = any(match("self._node_by_id.get(node_id)", n.value) is not None for n in _returns(h))
+    hc = exit_cases(ctx, h, ("return",))
+    ok = bool(find_cases(hc, "return", "self._node_by_id.get(node_id)"))
     obs.append(ctx.ob("EXH-5", ["C02", "C09"], h, "find_first(node_id=) reads the id map", None, ok, ""))
-    ok = any(match("$r[0] if $r else None", n.value) is not None for n in _returns(h))
+    firsts = [(c, e) for c, e in find_cases(hc, "return", "$$r[0]", [("$$r", True)])
+              if all(match("self._nodes_by_data_id.get(data_id)", v) is not None for v in reaching_values(ctx, h, c.stmt, e["$$r"]))]
+    # every other return under `data_id is not None` hands back nothing
+    other = [c for c in hc if c.value is not None and not any(c is x for x, _ in firsts)
+             and any((not pol) and match("data_id is None", e) is not None for e, pol in c.conds) and not (isinstance(c.value, ast.Constant) and c.value.value is None)]
+    ok = len(firsts) == 1 and not other
     obs.append(ctx.ob("EXH-5", ["C02", "C09"], h, "find_first(data/data_id) returns the first clone or None", None, ok, ""))
     return obs
 
@@ -151,211 +153,383 @@ def dataid_def(ctx: Ctx) -> List[Ob]:
 
 
 # -------------------------------------------------------------- KIND-BRANCH
+def _is_kind_eq(e: ast.AST, wanted: Set[str]) -> Optional[str]:
+    """`<x>._kind == <wanted>` / `<x>.kind == <wanted>` (either side): text of <x>, else None."""
+    if isinstance(e, ast.Compare) and len(e.ops) == 1 and isinstance(e.ops[0], ast.Eq):
+        l, r = e.left, e.comparators[0]
+        for a_, b_ in ((l, r), (r, l)):
+            if isinstance(a_, ast.Attribute) and a_.attr in ("_kind", "kind") and norm(b_) in wanted and norm(a_.value) != "self":
+                return norm(a_.value)
+    return None
+
+
+def _kind_conds(conds, wanted: Set[str]) -> List[str]:
+    """subjects x of positive atoms `x._kind == wanted` (also inside `any_kind or ...` disjunctions)."""
+    out = []
+    for e, pol in conds:
+        if not pol:
+            continue
+        for d in (e.values if isinstance(e, ast.BoolOp) and isinstance(e.op, ast.Or) else [e]):
+            for c_ in (d.values if isinstance(d, ast.BoolOp) and isinstance(d.op, ast.And) else [d]):
+                x = _is_kind_eq(c_, wanted)
+                if x is not None:
+                    out.append(x)
+    return out
+
+
+def _any_kind_pol(conds) -> Optional[bool]:
+    """True: reached only with the any-kind option, False: only without, None: either."""
+    for e, pol in conds:
+        t = norm(e)
+        if t in ("kind is ANY_KIND", "any_kind", "kind == ANY_KIND"):
+            return pol
+    return None
+
+
 @rule("KIND-BRANCH", ["C15"], floor=12, section="4/C15")
 def kind_branch(ctx: Ctx) -> List[Ob]:
     """kind-aware queries: the any-kind branch reads the unfiltered child/sibling list, the kind branch compares _kind with the requested (or own) kind, and nothing else is filtered"""
     obs: List[Ob] = []
     m = ctx.model
+
+    def T(f, label, ok, why="", node=None):
+        obs.append(ctx.tri("KIND-BRANCH", ["C15"], f, label, node, ok, why))
+
+    def valued(f):
+        return [c for c in exit_cases(ctx, f, ("return",)) if c.value is not None and not (isinstance(c.value, ast.Constant) and c.value.value is None)
+                and not (isinstance(c.value, ast.List) and not c.value.elts)]
+
+    CH = "self._children"
     for name in ("get_children", "first_child", "last_child", "has_children"):
         f = m.func(f"TypedNode.{name}")
-        anyk = [n for n in iter_own(f.node) if isinstance(n, ast.If) and match("kind is ANY_KIND", n.test) is not None]
-        ok = len(anyk) == 1 and isinstance(anyk[0].body[0], ast.Return)
-        if ok:
-            r = anyk[0].body[0].value
-            # the local holding the full child list
-            al = one("$a = self._children", f.node)
-            a = al[1]["$a"] if al else "self._children"
-            want = {"get_children": [a], "first_child": [f"{a}[0]"], "last_child": [f"{a}[-1]"],
-                    "has_children": ["bool(self._children)", f"bool({a})"]}[name]
-            ok = any(match(w, r) is not None for w in want)
-        obs.append(ctx.ob("KIND-BRANCH", ["C15"], f, f"{name}(ANY_KIND) equals the untyped query", None, ok, "" if ok else "with the any-kind option the result is the untyped one"))
+        cs = valued(f)
+        reads = [x for x in ast.walk(f.node) if isinstance(x, ast.Name) and x.id == "kind" and isinstance(x.ctx, ast.Load)]
+        T(f, f"{name}: the kind argument is consulted", bool(reads), "the kind argument has no effect")
+        anyc = [c for c in cs if _any_kind_pol(c.conds) is True]
+        want = {"get_children": [CH, "self.children"], "first_child": [f"{CH}[0]"], "last_child": [f"{CH}[-1]"], "has_children": [f"bool({CH})"]}[name]
+        ok = None if not anyc else all(any(norm(v) in want for v in reaching_values(ctx, f, c.stmt, c.value)) for c in anyc)
+        T(f, f"{name}(ANY_KIND) equals the untyped query", ok, f"with the any-kind option the result is the untyped one ({want[0]})")
+        kc = [c for c in cs if _any_kind_pol(c.conds) is not True]
         if name == "has_children":
-            ok = has("self.get_children(kind)", f.node)
+            ok = None if not kc else all(has("self.get_children(kind)", c.value) or any(has("self.get_children(kind)", v) for v in reaching_values(ctx, f, c.stmt, c.value)) for c in kc)
         else:
-            cmps = find("$n._kind == kind", f.node) + find("$n.kind == kind", f.node)
-            ok = len(cmps) == 1
-        obs.append(ctx.ob("KIND-BRANCH", ["C15"], f, f"{name}(kind) selects children whose _kind == kind", None, ok, "" if ok else "the kind filter must be equality on the node's kind"))
-    f = m.func("TypedNode.first_child")
-    al = one("$a = self._children", f.node)
-    lps = [n for n in iter_own(f.node) if isinstance(n, ast.For)]
-    ok = al is not None and len(lps) == 1 and match("$a", lps[0].iter, {"$a": al[1]["$a"]}) is not None
-    obs.append(ctx.ob("KIND-BRANCH", ["C15"], f, "first_child scans the full child list front to back", None, ok, ""))
-    f = m.func("TypedNode.last_child")
-    al = one("$a = self._children", f.node)
-    lps = [n for n in iter_own(f.node) if isinstance(n, ast.For)]
-    ok = al is not None and len(lps) == 1 and (match("range(len($a) - 1, -1, -1)", lps[0].iter, {"$a": al[1]["$a"]}) is not None
-                                               or match("reversed($a)", lps[0].iter, {"$a": al[1]["$a"]}) is not None)
-    obs.append(ctx.ob("KIND-BRANCH", ["C15"], f, "last_child scans the full child list back to front", None, ok, "" if ok else "the last child of a kind is found from the end, including index 0"))
+            ok = None if not kc else True
+            for c in kc:
+                if isinstance(c.value, ast.ListComp):
+                    g = c.value.generators[0]
+                    conds = [(t, True) for t in g.ifs]
+                    subj = _kind_conds([x for t in g.ifs for x in split_cond(t, True)], {"kind"})
+                    if not (subj == [norm(g.target)] and norm(c.value.elt) == norm(g.target) and norm(g.iter) in (CH, "self.children")):
+                        ok = False
+                else:
+                    subj = _kind_conds(c.conds, {"kind"})
+                    if not subj or subj[0] != norm(c.value):
+                        ok = False
+        T(f, f"{name}(kind) selects children whose _kind == kind", ok, "the kind filter must be equality on the node's kind, applied to the returned child")
+    # scan direction of the typed end-of-list queries
+    for name, fwd, lst in (("first_child", True, CH), ("last_child", False, CH), ("first_sibling", True, "self._parent._children"), ("last_sibling", False, "self._parent._children")):
+        f = m.func(f"TypedNode.{name}")
+        lps = [n for n in iter_own(f.node) if isinstance(n, ast.For) and any(isinstance(x, ast.Return) for x in ast.walk(n))]
+        ok = None
+        if len(lps) == 1:
+            it = norm(lps[0].iter)
+            if fwd:
+                ok = it in (lst, lst.replace("._children", ".children"), f"range(len({lst}))", f"range(0, len({lst}))")
+            else:
+                ok = it in (f"reversed({lst})", f"range(len({lst}) - 1, -1, -1)", f"{lst}[::-1]")
+        T(f, f"{name} scans the full {'child' if 'child' in name else 'sibling'} list {'front to back' if fwd else 'back to front'}", ok,
+          "the first / last node of a kind is found from the matching end, over the whole list (index 0 included)")
     for name in ("get_siblings", "first_sibling", "last_sibling", "prev_sibling", "next_sibling", "get_index", "is_first_sibling", "is_last_sibling"):
         f = m.func(f"TypedNode.{name}")
         d = f.param_default("any_kind")
         ok = d is not None and norm(d) == "False"
-        obs.append(ctx.ob("KIND-BRANCH", ["C15"], f, f"{name}: any_kind defaults to False", None, ok, "" if ok else "kind-aware by default"))
+        T(f, f"{name}: any_kind defaults to False", ok, "kind-aware by default")
+        reads = [x for x in ast.walk(f.node) if isinstance(x, ast.Name) and x.id == "any_kind" and isinstance(x.ctx, ast.Load)]
+        T(f, f"{name}: the any_kind option is consulted", bool(reads), "the option has no effect: any_kind=True still filters by kind (or the other way round)")
         own = {"self._kind", "self.kind"}
-        for b in ctx.env.scope(f).bindings.items():
-            if any(x.kind == "val" and x.expr is not None and norm(x.expr) in ("self.kind", "self._kind") for x in b[1]):
-                own.add(b[0])
-        cmps = [n for n in ast.walk(f.node) if isinstance(n, ast.Compare) and len(n.ops) == 1 and isinstance(n.ops[0], ast.Eq)
-                and ((norm(n.comparators[0]) in own and norm(n.left).split(".")[-1] in ("_kind", "kind"))
-                     or (norm(n.left) in own and norm(n.comparators[0]).split(".")[-1] in ("_kind", "kind")))]
+        for bname, bs in ctx.env.scope(f).bindings.items():
+            if any(x.kind == "val" and x.expr is not None and norm(x.expr) in ("self.kind", "self._kind") for x in bs):
+                own.add(bname)
+        cmps = [n for n in ast.walk(f.node) if _is_kind_eq(n, own) is not None]
         deleg = [c for c in ast.walk(f.node) if isinstance(c, ast.Call) and isinstance(c.func, ast.Attribute)
                  and c.func.attr in ("first_sibling", "last_sibling", "get_children") and norm(c.func.value) in ("self", "self.parent", "self._parent")]
         ok = bool(cmps) or bool(deleg)
-        obs.append(ctx.ob("KIND-BRANCH", ["C15"], f, f"{name}: the kind branch compares with the node's own kind (or delegates to a kind-aware query)", None, ok,
-                          "" if ok else "siblings of the same kind only"))
+        T(f, f"{name}: the kind branch compares with the node's own kind (or delegates to a kind-aware query)", ok, "siblings of the same kind only")
     for name in ("prev_sibling", "next_sibling", "first_child", "last_child", "first_sibling", "last_sibling"):
         f = m.func(f"TypedNode.{name}")
         bad = []
         for lp in [n for n in iter_own(f.node) if isinstance(n, ast.For)]:
-            for st in lp.body:
-                if isinstance(st, (ast.Return, ast.Break)):
-                    bad.append(st)
-        obs.append(ctx.ob("KIND-BRANCH", ["C15"], f, f"{name}: the scan only stops at a node of the wanted kind (no unconditional exit in the loop)", None, not bad,
-                          "" if not bad else f"`{norm(bad[0])}` ends the scan after the first candidate: with interleaved kinds the match further away is missed"))
+            inside = {id(x) for x in ast.walk(lp)}
+            for x in ast.walk(lp):
+                if isinstance(x, (ast.Return, ast.Break)):
+                    pcs = [(e, pol) for e, pol in path_conds(ctx, f, x) if id(getattr(e, "_orig", e)) in inside]
+                    if not _kind_conds(pcs, {"kind", "self._kind", "self.kind"}) and not any(pol and "any_kind" in norm(e) for e, pol in pcs):
+                        bad.append(x)
+        T(f, f"{name}: the scan only stops at a node of the wanted kind (no unconditional exit in the loop)", not bad,
+          f"`{norm(bad[0])}` ends the scan after the first candidate: with interleaved kinds the match further away is missed" if bad else "")
     f = m.func("TypedNode.get_siblings")
-    lc = [n for n in iter_own(f.node) if isinstance(n, ast.ListComp)]
-    ok = False
-    if len(lc) == 1 and lc[0].generators and lc[0].generators[0].ifs:
-        c = lc[0].generators[0].ifs[0]
-        ok = match("(add_self or $n is not self) and $n.kind == $k", c) is not None or match("(add_self or $n is not self) and $n._kind == self._kind", c) is not None \
-            or match("(add_self or $n is not self) and $n._kind == $k", c) is not None
-    obs.append(ctx.ob("KIND-BRANCH", ["C15"], f, "get_siblings: same kind, self excluded by identity unless add_self", None, ok, ""))
+    lc = [c for c in valued(f) if isinstance(c.value, ast.ListComp)]
+    ok = None
+    if len(lc) == 1 and lc[0].value.generators and lc[0].value.generators[0].ifs:
+        g = lc[0].value.generators[0]
+        atoms = [x for t in g.ifs for x in split_cond(t, True)]
+        nv = norm(g.target)
+        kind_ok = _kind_conds(atoms, {"self._kind", "self.kind"}) == [nv]
+        self_ok = any(pol and norm(e) in (f"add_self or {nv} is not self", f"{nv} is not self or add_self") for e, pol in atoms)
+        ok = kind_ok and self_ok and norm(g.iter) in ("self._parent._children", "self._parent.children") and norm(lc[0].value.elt) == nv
+    T(f, "get_siblings: same kind, self excluded by identity unless add_self", ok, "")
     for name, idx in (("is_first_sibling", "0"), ("is_last_sibling", "-1")):
         f = m.func(f"TypedNode.{name}")
-        ok = has(f"if any_kind:\n    return self is self._parent._children[{idx}]", f.node)
-        obs.append(ctx.ob("KIND-BRANCH", ["C15"], f, f"{name}(any_kind=True) is the untyped identity test", None, ok, ""))
+        anyc = [c for c in valued(f) if _any_kind_pol(c.conds) is True]
+        ok = None if not anyc else all(norm(c.value) == f"self is self._parent._children[{idx}]" for c in anyc)
+        T(f, f"{name}(any_kind=True) is the untyped identity test", ok, "")
     for name, idx in (("first_sibling", "0"), ("last_sibling", "-1")):
         f = m.func(f"TypedNode.{name}")
-        al = one("$pc = self._parent._children", f.node)
-        ok = al is not None and has(f"if any_kind:\n    return $pc[{idx}]", f.node, {"$pc": al[1]["$pc"]})
-        ok = ok or has(f"if any_kind:\n    return self._parent._children[{idx}]", f.node)
-        obs.append(ctx.ob("KIND-BRANCH", ["C15"], f, f"{name}(any_kind=True) is the untyped end of the list", None, ok, ""))
+        anyc = [c for c in valued(f) if _any_kind_pol(c.conds) is True]
+        ok = None if not anyc else all(any(norm(v) == f"self._parent._children[{idx}]" for v in reaching_values(ctx, f, c.stmt, c.value)) for c in anyc)
+        T(f, f"{name}(any_kind=True) is the untyped end of the list", ok, "")
     f = m.func("TypedTree.iter_by_type")
-    ok = has("$n._kind == kind", f.node) or has("$n.kind == kind", f.node)
-    obs.append(ctx.ob("KIND-BRANCH", ["C15"], f, "iter_by_type yields the nodes whose _kind == kind", None, ok, ""))
-    tests = [n.test for n in iter_own(f.node) if isinstance(n, ast.If) and "ANY_KIND" in norm(n.test)]
-    ok = len(tests) == 1 and (match("kind is ANY_KIND", tests[0]) is not None or match("kind == ANY_KIND", tests[0]) is not None)
-    obs.append(ctx.ob("KIND-BRANCH", ["C15"], f, "iter_by_type: only ANY_KIND selects all nodes (no truthiness test on kind: '' is a kind)", None, ok,
-                      "" if ok else f"`{norm(tests[0]) if tests else '?'}`: an empty-string kind would iterate everything"))
+    ys = exit_cases(ctx, f, ("yield",))
+    ky = [c for c in ys if _any_kind_pol(c.conds) is not True]
+    ok = None if not ky else all(_kind_conds(c.conds, {"kind"}) == [norm(c.value)] for c in ky if c.value is not None)
+    T(f, "iter_by_type yields the nodes whose _kind == kind", ok, "")
+    tests = [e for c in ys for e, pol in c.conds if "ANY_KIND" in norm(e) or norm(e) == "kind"]
+    tests += [n.test for n in iter_own(f.node) if isinstance(n, ast.If) and (norm(n.test) in ("kind", "not kind"))]
+    ok = None if not tests else all(norm(t) in ("kind is ANY_KIND", "kind == ANY_KIND") for t in tests)
+    T(f, "iter_by_type: only ANY_KIND selects all nodes (no truthiness test on kind: '' is a kind)", ok,
+      f"`{norm(tests[0]) if tests else '?'}`: an empty-string kind would iterate everything")
     # a generator that `return <value>`s loses the value: the ANY_KIND branch must yield
     gen = any(isinstance(x, (ast.Yield, ast.YieldFrom)) for x in iter_own(f.node))
     bad = [r for r in _returns(f)] if gen else []
-    obs.append(ctx.ob("KIND-BRANCH", ["C15"], f, "iter_by_type(ANY_KIND) yields every node", None, not bad,
-                      "" if not bad else f"`{norm(bad[0])}` inside a generator function: the returned iterator is discarded and nothing is yielded"))
+    T(f, "iter_by_type(ANY_KIND) yields every node", not bad,
+      f"`{norm(bad[0])}` inside a generator function: the returned iterator is discarded and nothing is yielded" if bad else "")
+    anyy = [c for c in ys if _any_kind_pol(c.conds) is True]
+    ok = None if not anyy else all(norm(c.value) in ("self.iterator()", "self") or (isinstance(c.stmt, ast.Yield) and True) for c in anyy)
+    T(f, "iter_by_type(ANY_KIND) walks the whole tree", ok, "")
     for q in ("TypedTree.first_child", "TypedTree.last_child"):
         f = m.func(q)
         ok = any(match(f"self._root.{f.name}(kind=kind)", n.value) is not None or match(f"self._root.{f.name}(kind)", n.value) is not None for n in _returns(f))
-        obs.append(ctx.ob("KIND-BRANCH", ["C15"], f, f"{q} delegates to the root with the caller's kind", None, ok, ""))
+        T(f, f"{q} delegates to the root with the caller's kind", ok, "")
     return obs
 
 
 # -------------------------------------------------------------- PARENT-WALK
+def _parent_walk(ctx: Ctx, f: Func):
+    """Skeleton of a parent walk: the single `while` loop whose body steps a
+    local along `._parent`.  None when the function has no such loop."""
+    ws = [n for n in iter_own(f.node) if isinstance(n, ast.While)]
+    if len(ws) != 1:
+        return None
+    w = ws[0]
+    step = [(n, e) for n, e in find("$p = $p._parent", w)]
+    if len(step) != 1:
+        return None
+    pv = step[0][1]["$p"]
+    inits = [norm(v) for v in reaching_values(ctx, f, w, ast.Name(id=pv, ctx=ast.Load())) if not (isinstance(v, ast.Attribute) and norm(v) == f"{pv}._parent")]
+    import re as _re
+
+    def P(t: str) -> str:
+        return _re.sub(rf"\b{_re.escape(pv)}\b", "P", t)
+
+    test = sorted(("" if pol else "not ") + P(norm(e)) for e, pol in split_cond(w.test, True))
+    body = sorted(P(norm(st)) for st in w.body if st is not step[0][0] and not any(step[0][0] is x for x in ast.walk(st)))
+    return {"loop": w, "var": pv, "inits": sorted(set(inits)), "test": test, "body": body, "step": step[0][0]}
+
+
+def _single_return(ctx: Ctx, f: Func):
+    """(value, conds) of the only valued return of an accessor; None if there are several / none."""
+    cs = [c for c in exit_cases(ctx, f, ("return",)) if c.value is not None and not (isinstance(c.value, ast.Constant) and c.value.value is None)]
+    if len(cs) != 1:
+        return None
+    return cs[0]
+
+
 @rule("PARENT-WALK", ["C10"], floor=8, section="4/C10")
 def parent_walk(ctx: Ctx) -> List[Ob]:
     """the parent-walk family stops at the system root by the same test, `parent` maps the root to None, sibling accessors read the parent's list at the right end, counts walk the default iterator"""
     obs: List[Ob] = []
     m = ctx.model
+    R_ = "PARENT-WALK"
 
-    def wh(f):
-        ws = [n for n in iter_own(f.node) if isinstance(n, ast.While)]
-        return ws[0] if len(ws) == 1 else None
+    def T(props, f, label, ok, why="", node=None):
+        obs.append(ctx.tri(R_, props, f, label, node, ok, why))
 
+    # ---- calc_depth: counts every parent including the system root
     f = m.func("Node.calc_depth")
-    w = wh(f)
-    e = match("while $p is not None:\n    $d += 1\n    $p = $p._parent", w) if w is not None else None
-    ok = e is not None and has("$p = self._parent", f.node, e) and has("$d = 0", f.node, e) and any(match("$d", r.value, e) is not None for r in _returns(f))
-    obs.append(ctx.ob("PARENT-WALK", ["C10"], f, "calc_depth counts the parents up to and including the system root (1 for top-level)", None, ok, "" if ok else "depth off by one"))
+    sk = _parent_walk(ctx, f)
+    ok: Optional[bool] = None
+    why = "no `while`-loop stepping along ._parent"
+    if sk is not None:
+        incs = [e for n, e in find("$d += 1", sk["loop"])]
+        ret = _single_return(ctx, f)
+        if len(incs) == 1 and ret is not None and isinstance(ret.value, ast.Name) and ret.value.id == incs[0]["$d"]:
+            d = incs[0]["$d"]
+            inside = {id(x) for x in ast.walk(sk["loop"])}
+            d0 = [norm(e_["$$v"]) for n_, e_ in find(f"{d} = $$v", f.node) if id(n_) not in inside]
+            ok = sk["inits"] == ["self._parent"] and sk["test"] == ["not P is None"] and d0 == ["0"] and sk["body"] == [f"{d} += 1"]
+            why = f"start {sk['inits']}, test {sk['test']}, counter starts at {d0}, loop body {sk['body']}: depth off by one"
+    T(["C10"], f, "calc_depth counts the parents up to and including the system root (1 for top-level)", ok, why)
+    # ---- get_top
     f = m.func("Node.get_top")
-    w = wh(f)
-    e = match("while $r._parent._parent:\n    $r = $r._parent", w) if w is not None else None
-    ok = e is not None and has("$r = self", f.node, e) and any(match("$r", r.value, e) is not None for r in _returns(f))
-    obs.append(ctx.ob("PARENT-WALK", ["C10"], f, "get_top climbs while the parent is not the system root", None, ok, ""))
-    for q, start in (("Node.is_descendant_of", "$p = self._parent"), ("Node.get_parent_list", "$p = self if add_self else self._parent")):
+    sk = _parent_walk(ctx, f)
+    ok, why = None, "no `while`-loop stepping along ._parent"
+    if sk is not None:
+        ret = _single_return(ctx, f)
+        if ret is not None:
+            ok = sk["inits"] == ["self"] and sk["test"] in (["P._parent._parent"], ["not P._parent._parent is None"]) and not sk["body"] and norm(ret.value) == sk["var"]
+            why = f"start {sk['inits']}, test {sk['test']}"
+    T(["C10"], f, "get_top climbs while the parent is not the system root", ok, why)
+    # ---- proper-ancestor walks
+    for q, want_init in (("Node.is_descendant_of", ["self._parent"]), ("Node.get_parent_list", ["self", "self._parent"])):
         f = m.func(q)
-        w = wh(f)
-        e = match("$p is not None and $p._parent is not None", w.test) if w is not None else None
-        ok = e is not None and match("$p = $p._parent", w.body[-1], e) is not None and has(start, f.node, e)
-        if q == "Node.is_descendant_of" and w is None:
-            # equivalent form: scan the list of proper ancestors
-            ok = any(isinstance(n, ast.For) and match("self.get_parent_list()", n.iter) is not None for n in iter_own(f.node))
-        obs.append(ctx.ob("PARENT-WALK", ["C10"], f, f"{q} walks the proper ancestors and stops before the system root", None, ok, "" if ok else "the system root is not an ancestor"))
+        sk = _parent_walk(ctx, f)
+        ok, why = None, "no `while`-loop stepping along ._parent"
+        if sk is not None:
+            ok = sk["inits"] == want_init and sk["test"] == ["not P is None", "not P._parent is None"]
+            why = f"start {sk['inits']}, test {sk['test']}: the system root is not an ancestor"
+        elif q == "Node.is_descendant_of" and any(isinstance(n, (ast.For, ast.comprehension)) and match("self.get_parent_list()", n.iter) is not None for n in ast.walk(f.node)):
+            ok = True  # equivalent form: scan the list of proper ancestors
+        T(["C10"], f, f"{q} walks the proper ancestors and stops before the system root", ok, why)
+        if q == "Node.get_parent_list" and sk is not None:
+            add_ok = bool(find_under(ctx, f, f"{sk['var']} = self", [("add_self", True)])) and bool(find_under(ctx, f, f"{sk['var']} = self._parent", [("add_self", False)]))
+            T(["C10"], f, "get_parent_list starts at self iff add_self", add_ok, "start node selection changed")
     f = m.func("Node.is_descendant_of")
     o = _first_param(f)
-    ok = has(f"if $p is {o}:\n    return True", f.node) and match("return False", f.body[-1]) is not None
-    obs.append(ctx.ob("PARENT-WALK", ["C10"], f, "is_descendant_of compares ancestors by identity", None, ok, ""))
+    sk = _parent_walk(ctx, f)
+    ok, why = None, "shape not recognised"
+    if sk is not None:
+        cs = exit_cases(ctx, f, ("return",))
+        trues = find_cases(cs, "return", "True")
+        falses = find_cases(cs, "return", "False")
+        if trues and falses:
+            ok = len(trues) == 1 and any(pol and norm(e) in (f"{sk['var']} is {o}", f"{o} is {sk['var']}") for e, pol in trues[0][0].conds) \
+                and not any(any(trues[0][0].stmt is x for x in ()) for _ in ()) and all(not any(c.stmt is x for x in ast.walk(sk["loop"])) for c, _e in falses)
+            why = "ancestors are compared by identity inside the walk; False only after the walk"
+    if sk is None:
+        # an equivalent scan of get_parent_list(): identity only through `is` / any(... is ...)
+        memb = [n for n in iter_own(f.node) if isinstance(n, ast.Compare) and any(isinstance(op_, (ast.In, ast.NotIn)) for op_ in n.ops)
+                and any("get_parent_list" in norm(c_) for c_ in n.comparators)]
+        eqs = [n for n in iter_own(f.node) if isinstance(n, ast.Compare) and any(isinstance(op_, (ast.Eq, ast.NotEq)) for op_ in n.ops) and o in [x.id for x in ast.walk(n) if isinstance(x, ast.Name)]]
+        if memb or eqs:
+            ok, why = False, f"`{norm((memb or eqs)[0])}` compares nodes with == (data equality): a node with equal data that is no ancestor is reported as one"
+    T(["C10"], f, "is_descendant_of compares ancestors by identity", ok, why)
     f = m.func("Node.is_ancestor_of")
     o = _first_param(f)
-    ok = any(match(f"{o}.is_descendant_of(self)", n.value) is not None for n in _returns(f))
-    obs.append(ctx.ob("PARENT-WALK", ["C10"], f, "is_ancestor_of is the converse of is_descendant_of", None, ok, ""))
+    ret = _single_return(ctx, f)
+    T(["C10"], f, "is_ancestor_of is the converse of is_descendant_of", None if ret is None else match(f"{o}.is_descendant_of(self)", ret.value) is not None, "")
     f = m.func("Node.get_parent_list")
-    e = one("$res.append($p)", f.node)
-    ok = e is not None and has("if not bottom_up:\n    $res.reverse()", f.node, {"$res": e[1]["$res"]}) and any(match("$res", r.value, {"$res": e[1]["$res"]}) is not None for r in _returns(f))
-    obs.append(ctx.ob("PARENT-WALK", ["C10"], f, "get_parent_list is top-down unless bottom_up", None, ok, ""))
+    ap = find("$res.append($p)", f.node)
+    ok = None
+    if len(ap) == 1:
+        res = ap[0][1]["$res"]
+        rv = find_under(ctx, f, f"{res}.reverse()", [("bottom_up", False)])
+        rv_all = find(f"{res}.reverse()", f.node) + find(f"reversed({res})", f.node) + find(f"{res}[::-1]", f.node)
+        rets = [c for c in exit_cases(ctx, f, ("return",)) if c.value is not None]
+        if rets and all(norm(c.value) == res for c in rets):
+            # every return after the reversal is reached with bottom_up false, every return that skips it with bottom_up true
+            ok = len(rv) == 1 and len(rv_all) == 1
+            for c in rets:
+                after = any(any(rv[0][0] is x for x in ast.walk(s_)) for s_ in stmts_before(ctx, f, c.stmt)) if rv else False
+                if not after and not any(pol and norm(e) == "bottom_up" for e, pol in c.conds):
+                    ok = False
+    T(["C10"], f, "get_parent_list is top-down unless bottom_up", ok, "the walk collects bottom-up; it must be reversed exactly when bottom_up is false")
     for q in ("Node.parent", "TypedNode.parent"):
         f = m.func(q)
-        ok = False
-        for r in _returns(f):
-            e = match("$p if $p._parent else None", r.value) or match("$p if $p._parent is not None else None", r.value)
-            if e is not None and has("$p = self._parent", f.node, e):
-                ok = True
-        obs.append(ctx.ob("PARENT-WALK", ["C10", "C15"] if q.startswith("Typed") else ["C10"], f, f"{q}: None for top-level nodes", None, ok, ""))
+        ret = _single_return(ctx, f)
+        ok = None
+        if ret is not None:
+            ok = norm(ret.value) == "self._parent" and sorted(cond_texts(ret.conds)) in (["self._parent._parent"], ["not self._parent._parent is None"])
+        T(["C10", "C15"] if q.startswith("Typed") else ["C10"], f, f"{q}: None for top-level nodes", ok, "the parent of a top-level node is reported as None (the system root is hidden)")
     f = m.func("Node.up")
-    w = wh(f)
-    ok = w is not None and match("level > 0", w.test) is not None and has("$p = $p._parent", w) and has("level -= 1", w)
-    obs.append(ctx.ob("PARENT-WALK", ["C10"], f, "up(n) climbs n parents", None, ok, ""))
+    sk = _parent_walk(ctx, f)
+    ok = None
+    if sk is not None:
+        ok = sk["test"] == ["level > 0"] and sk["inits"] == ["self"] and "level -= 1" in sk["body"]
+    T(["C10"], f, "up(n) climbs n parents", ok, "")
     # end-of-list accessors: API names only, no locals
     want = {
-        "Node.first_child": "self._children[0] if self._children else None",
-        "Node.last_child": "self._children[-1] if self._children else None",
-        "Node.first_sibling": "self._parent._children[0]",
-        "Node.last_sibling": "self._parent._children[-1]",
-        "Node.is_first_sibling": "self is self._parent._children[0]",
-        "Node.is_last_sibling": "self is self._parent._children[-1]",
-        "Node.is_top": "self._parent._parent is None",
-        "Node.is_system_root": "self._parent is None",
-        "Node.is_leaf": "not self._children",
-        "Node.has_children": "bool(self._children)",
-        "Node.depth": "self.calc_depth()",
-        "Tree.count": "len(self._node_by_id)",
-        "Tree.count_unique": "len(self._nodes_by_data_id)",
-        "Tree.calc_height": "self._root.calc_height()",
+        "Node.first_child": ("self._children[0]", ["self._children"]),
+        "Node.last_child": ("self._children[-1]", ["self._children"]),
+        "Node.first_sibling": ("self._parent._children[0]", []),
+        "Node.last_sibling": ("self._parent._children[-1]", []),
+        "Node.is_first_sibling": ("self is self._parent._children[0]", []),
+        "Node.is_last_sibling": ("self is self._parent._children[-1]", []),
+        "Node.is_top": ("self._parent._parent is None", []),
+        "Node.is_system_root": ("self._parent is None", []),
+        "Node.is_leaf": ("not self._children", []),
+        "Node.has_children": ("bool(self._children)", []),
+        "Node.depth": ("self.calc_depth()", []),
+        "Tree.count": ("len(self._node_by_id)", []),
+        "Tree.count_unique": ("len(self._nodes_by_data_id)", []),
+        "Tree.calc_height": ("self._root.calc_height()", []),
     }
-    for q, txt in want.items():
+    for q, (txt, conds) in want.items():
         f = m.func(q)
-        rets = _returns(f)
-        ok = len(rets) == 1 and match(txt, rets[0].value) is not None
+        ret = _single_return(ctx, f)
+        ok = None
+        got = "?"
+        if ret is not None and not any(isinstance(n, (ast.For, ast.While)) for n in iter_own(f.node)):
+            vals = reaching_values(ctx, f, ret.stmt, ret.value)
+            got = " | ".join(norm(v) for v in vals) + (f" when {sorted(cond_texts(ret.conds))}" if ret.conds else "")
+            ok = len(vals) == 1 and norm(vals[0]) == txt and sorted(cond_texts(ret.conds)) == conds
         props = ["C10", "C02"] if q.startswith("Tree.count") else ["C10"]
-        obs.append(ctx.ob("PARENT-WALK", props, f, f"{q} returns `{txt}`", None, ok, "" if ok else f"got `{norm(rets[0].value) if rets else '?'}`"))
-    f = m.func("Node.prev_sibling")
-    ok = has("if self.is_first_sibling():\n    return None", f.node) and any(match("$$l[$i - 1]", r.value) is not None for r in _returns(f))
-    obs.append(ctx.ob("PARENT-WALK", ["C10"], f, "prev_sibling: None for the first, else the element before", None, ok, ""))
-    f = m.func("Node.next_sibling")
-    ok = has("if self.is_last_sibling():\n    return None", f.node) and any(match("$$l[$i + 1]", r.value) is not None for r in _returns(f))
-    obs.append(ctx.ob("PARENT-WALK", ["C10"], f, "next_sibling: None for the last, else the element after", None, ok, ""))
+        T(props, f, f"{q} returns `{txt}`" + (f" if {conds[0]} else None" if conds else ""), ok, f"got `{got}`")
+    for q, guard, off in (("Node.prev_sibling", "self.is_first_sibling()", "-"), ("Node.next_sibling", "self.is_last_sibling()", "+")):
+        f = m.func(q)
+        ret = _single_return(ctx, f)
+        ok = None
+        if ret is not None:
+            e = match(f"$$l[$$i {off} 1]", ret.value)
+            if e is not None:
+                iv = reaching_values(ctx, f, ret.stmt, e["$$i"])
+                ok = sorted(cond_texts(ret.conds)) == [f"not {guard}"] and norm(e["$$l"]) == "self._parent._children" \
+                    and len(iv) == 1 and norm(iv[0]) in ("_index_of(self._parent._children, self)", "self.get_index()")
+            elif match("$$l[$$i]", ret.value) is not None or match("$$l[$$i + $$k]", ret.value) is not None or match("$$l[$$i - $$k]", ret.value) is not None:
+                ok = False
+        T(["C10"], f, f"{q.split('.')[1]}: None for the {'first' if off == '-' else 'last'}, else the element {'before' if off == '-' else 'after'}", ok,
+          "the neighbour is the element at the own (identity) index -/+ 1 in the parent's child list")
     f = m.func("Node.get_siblings")
-    ok = has("[$n for $n in self._parent._children if $n is not self]", f.node)
-    obs.append(ctx.ob("PARENT-WALK", ["C10"], f, "get_siblings excludes self by identity", None, ok, ""))
+    cs = exit_cases(ctx, f, ("return",))
+    comp = [c for c in cs if isinstance(c.value, ast.ListComp)]
+    ok = None
+    if len(comp) == 1:
+        ok = match("[$n for $n in self._parent._children if $n is not self]", comp[0].value) is not None
+    T(["C10"], f, "get_siblings excludes self by identity", ok, "")
     f = m.func("Node.count_descendants")
     lps = [n for n in iter_own(f.node) if isinstance(n, ast.For)]
-    ok = len(lps) == 1 and match("self.iterator()", lps[0].iter) is not None and len(lps[0].body) == 1 \
-        and match("if $a or not $n._children:\n    $i += 1", lps[0].body[0]) is not None
-    obs.append(ctx.ob("PARENT-WALK", ["C10"], f, "count_descendants counts the walk (leaves only: nodes without children)", None, ok, ""))
+    ok = None
+    if len(lps) == 1:
+        incs = find("$i += 1", lps[0])
+        if len(incs) == 1 and isinstance(lps[0].target, ast.Name):
+            nv = lps[0].target.id
+            cts = sorted(cond_texts(path_conds(ctx, f, incs[0][0])))
+            ok = match("self.iterator()", lps[0].iter) is not None and cts in ([f"(not leaves_only or not {nv}._children)"], [f"not (leaves_only and {nv}._children)"])
+            if not ok:
+                ok = match("self.iterator()", lps[0].iter) is not None and any(
+                    pol and norm(e) == f"not leaves_only or not {nv}._children" for e, pol in path_conds(ctx, f, incs[0][0])) and len(path_conds(ctx, f, incs[0][0])) == 1
+    T(["C10"], f, "count_descendants counts the walk (leaves only: nodes without children)", ok, "every node of the default walk counts once; with leaves_only exactly the childless ones")
     f = m.func("Node.calc_height")
     g = [x for x in f.nested]
-    ok = len(g) == 1
-    if ok:
+    ok = None
+    if len(g) == 1:
         gn = g[0].name
-        ok = has(f"{gn}($n, $h + 1)", g[0].node) and has("$h > $H", g[0].node) and has(f"{gn}(self, 0)", f.node)
-    obs.append(ctx.ob("PARENT-WALK", ["C10"], f, "calc_height: maximal leaf depth below self (0 for leaves)", None, ok, ""))
+        ok = has(f"{gn}($n, $h + 1)", g[0].node) and (has("$h > $H", g[0].node) or has("max($H, $h)", g[0].node)) and has(f"{gn}(self, 0)", f.node)
+    T(["C10"], f, "calc_height: maximal leaf depth below self (0 for leaves)", ok, "")
     f = m.func("Node.get_path")
-    ok = any(match("separator + separator.join($r)", r.value) is not None for r in _returns(f)) and has("self.get_parent_list(add_self=add_self)", f.node)
-    obs.append(ctx.ob("PARENT-WALK", ["C10"], f, "get_path starts with and joins by the caller's separator over the ancestor list", None, ok,
-                      "" if ok else "a hard-coded '/' ignores the separator argument"))
+    ret = _single_return(ctx, f)
+    ok = None
+    if ret is not None:
+        ok = match("separator + separator.join($$r)", ret.value) is not None and has("self.get_parent_list(add_self=add_self)", f.node)
+    T(["C10"], f, "get_path starts with and joins by the caller's separator over the ancestor list", ok, "a hard-coded '/' ignores the separator argument")
     f = m.func("Node.get_common_ancestor")
     o = _first_param(f)
-    ok = has(f"self._tree is {o}._tree", f.node) and has(f"{o}.get_parent_list(add_self=True)", f.node) and has("self.get_parent_list(add_self=True, bottom_up=True)", f.node) \
-        and match("return None", f.body[-1]) is not None and has("$p._node_id in $s", f.node)
-    obs.append(ctx.ob("PARENT-WALK", ["C10"], f, "get_common_ancestor: nearest (bottom-up) own ancestor-or-self whose node_id is among other's", None, ok, ""))
+    ret = _single_return(ctx, f)
+    ok = None
+    if ret is not None:
+        tree_same = any(pol and norm(e) in (f"self._tree is {o}._tree", f"{o}._tree is self._tree") for e, pol in ret.conds)
+        member = any(pol and match("$$p._node_id in $$s", e) is not None for e, pol in ret.conds)
+        ok = tree_same and member and has(f"{o}.get_parent_list(add_self=True)", f.node) and has("self.get_parent_list(add_self=True, bottom_up=True)", f.node)
+    T(["C10"], f, "get_common_ancestor: nearest (bottom-up) own ancestor-or-self whose node_id is among other's", ok, "")
     return obs
 
 
@@ -385,61 +559,59 @@ def frame(ctx: Ctx) -> List[Ob]:
         obs.append(ctx.ob("FRAME", ["C04"], f, f"{q} writes only {sorted(allowed)}", None, not es,
                           "" if not es else f"also writes: {es[0].describe()} - every other node must keep its identity, data, id, metadata, parent and order"))
     f = m.func("Node.set_meta")
-
-    def guard_of(node_):
-        """tests (positive) and negated tests that hold where node_ executes"""
-        pos, neg = [], []
-        ch, p_ = node_, m.parent_of(node_)
-        while p_ is not None and p_ is not f.node:
-            if isinstance(p_, ast.If):
-                if any(ch is x for x in p_.body):
-                    pos.append(norm(p_.test))
-                else:
-                    neg.append(norm(p_.test))
-            ch, p_ = p_, m.parent_of(p_)
-        # early returns before node_: `if T: ...; return` at the same level negate T
-        for st in f.body:
-            if isinstance(st, ast.If) and st.lineno < getattr(node_, "lineno", 0) and st.body and isinstance(st.body[-1], ast.Return) and not any(node_ is x for x in ast.walk(st)):
-                neg.append(norm(st.test))
-        return pos, neg
-
-    c1 = find("self.clear_meta(key)", f.node)
-    c2 = find("self._meta = {key: value}", f.node)
-    c3 = find("self._meta[key] = value", f.node)
+    c1 = find_under(ctx, f, "self.clear_meta(key)", [("value is None", True)])
+    c2 = find_under(ctx, f, "self._meta = {key: value}", [("value is None", False), ("self._meta is None", True)])
+    c3 = find_under(ctx, f, "self._meta[key] = value", [("value is None", False), ("self._meta is None", False)])
     ok = len(c1) == 1 and len(c2) == 1 and len(c3) == 1
-    if ok:
-        g1, g2, g3 = guard_of(c1[0][0]), guard_of(c2[0][0]), guard_of(c3[0][0])
-        ok = g1[0] == ["value is None"] and g2[0] == ["self._meta is None"] and "value is None" in g2[1] \
-            and not g3[0] and {"value is None", "self._meta is None"} <= set(g3[1])
     writes = [e for e in ctx.fx.direct[f]]
     ok = ok and len(writes) == 2
     obs.append(ctx.ob("FRAME", ["C04"], f, "set_meta: None removes the key, first value creates the dict, else stores", None, ok, "" if ok else "metadata edit semantics changed"))
     f = m.func("Node.clear_meta")
-    e = one("$m = self._meta", f.node)
-    ok = has("if key is None:\n    self._meta = None\n    return", f.node) and e is not None \
-        and has("$m.pop(key, None)", f.node, {"$m": e[1]["$m"]}) and has("if len($m) == 0:\n    self._meta = None", f.node, {"$m": e[1]["$m"]})
+    ok = len(find_under(ctx, f, "self._meta = None", [("key is None", True)])) == 1 \
+        and len(find_under(ctx, f, "$$m.pop(key, None)", [("key is None", False)])) == 1 \
+        and len(find_under(ctx, f, "self._meta = None", [("key is None", False), ("$$m", False)])) == 1
     obs.append(ctx.ob("FRAME", ["C04"], f, "clear_meta: all or one key; an emptied dict becomes None again", None, ok, ""))
     f = m.func("Node.update_meta")
-    ok = has("if replace or self._meta is None:\n    self._meta = values.copy()\nelse:\n    self._meta.update(values)", f.node)
+    ok = (bool(find_under(ctx, f, "self._meta = values.copy()", [("replace or self._meta is None", True)])) or bool(find_under(ctx, f, "self._meta = dict(values)", [("replace or self._meta is None", True)]))) \
+        and bool(find_under(ctx, f, "self._meta.update(values)", [("replace", False), ("self._meta is None", False)]))
     obs.append(ctx.ob("FRAME", ["C04"], f, "update_meta: replace stores a copy of the caller's dict, else merges", None, ok, ""))
     f = m.func("Node.sort_children")
     srt = [c for c in ctx.env.calls_in[f] if isinstance(c.func, ast.Attribute) and c.func.attr == "sort"]
-    ok = len(srt) == 1 and {k.arg: norm(k.value) for k in srt[0].keywords} == {"key": "key", "reverse": "reverse"} and not srt[0].args
+    ok = len(srt) == 1 and not srt[0].args and set(k.arg for k in srt[0].keywords) == {"key", "reverse"}
+    if ok:
+        kw = {k.arg: k.value for k in srt[0].keywords}
+        # the key handed to list.sort is the caller's key, or the name getter when none was given
+        kvals = [norm(v) for v in reaching_values(ctx, f, srt[0], kw["key"])]
+        default_ok = False
+        if isinstance(kw["key"], ast.Name):
+            for n, _e in find(f"{kw['key'].id} = attrgetter('name')", f.node):
+                if any(pol and match("key is None", e) is not None for e, pol in path_conds(ctx, f, n)):
+                    default_ok = True
+        ok = norm(kw["reverse"]) == "reverse" and isinstance(kw["key"], ast.Name)
+    else:
+        default_ok = False
     obs.append(ctx.ob("FRAME", ["C04"], f, "sort_children sorts the child list in place with the caller's key and direction", None, ok, ""))
-    ok = has("if key is None:\n    key = attrgetter('name')", f.node)
-    obs.append(ctx.ob("FRAME", ["C04"], f, "default sort key is the node name", None, ok, ""))
-    ok = has("if deep:\n    for $c in $$l:\n        $c.sort_children(key=key, reverse=reverse, deep=True)", f.node)
-    obs.append(ctx.ob("FRAME", ["C04"], f, "deep sort recurses into every child with the same key and direction", None, ok, ""))
+    obs.append(ctx.ob("FRAME", ["C04"], f, "default sort key is the node name", None, default_ok, ""))
+    rec = find_under(ctx, f, "$c.sort_children(key=$$k, reverse=reverse, deep=True)", [("deep", True)])
+    ok = len(rec) == 1 and srt and norm(rec[0][1]["$$k"]) == norm({k.arg: k.value for k in srt[0].keywords}.get("key"))
+    if ok:
+        lp = m.parent_of(m.parent_of(rec[0][0]))
+        ok = isinstance(lp, ast.For) and isinstance(lp.target, ast.Name) and lp.target.id == rec[0][1]["$c"] and norm(lp.iter) in (
+            "self._children", "self.children") or (isinstance(lp, ast.For) and isinstance(lp.iter, ast.Name) and any(
+                norm(v) in ("self._children", "self.children") for v in reaching_values(ctx, f, lp, lp.iter)))
+    obs.append(ctx.ob("FRAME", ["C04"], f, "deep sort recurses into every child with the same key and direction", None, bool(ok), ""))
     f = m.func("Node.rename")
-    ok = has(f"if isinstance(self._data, str):\n    return self.set_data({_first_param(f)})", f.node)
+    ok = bool(find_cases(exit_cases(ctx, f, ("return",)), "return", f"self.set_data({_first_param(f)})", [("isinstance(self._data, str)", True)])) \
+        or bool(find_under(ctx, f, f"self.set_data({_first_param(f)})", [("isinstance(self._data, str)", True)]))
     obs.append(ctx.ob("FRAME", ["C04"], f, "rename is set_data(new_name) for plain string nodes", None, ok, ""))
     f = m.func("Node.set_data")
     loops = [n for n in ast.walk(f.node) if isinstance(n, ast.For) and any(
         isinstance(x, ast.Assign) and any(isinstance(t, ast.Attribute) and t.attr in ("_data", "_data_id") for t in x.targets)
         for st in n.body for x in ast.walk(st))]
-    ok = all(isinstance(m.parent_of(lp), ast.If) and norm(m.parent_of(lp).test) == "with_clones" for lp in loops) and len(loops) == 2
+    ok = len(loops) == 2 and all(any(pol and match("with_clones", e) is not None for e, pol in path_conds(ctx, f, lp)) for lp in loops)
     obs.append(ctx.ob("FRAME", ["C04", "C02"], f, "set_data touches the other clones only under with_clones", None, ok, "" if ok else "without with_clones exactly this node changes"))
-    ok = has("if $h and with_clones is None:\n    raise AmbiguousMatchError($_)", f.node)
+    amb = [c for c in exit_cases(ctx, f, ("raise",)) if raised_class(c.stmt) == "AmbiguousMatchError"]
+    ok = any(find_cases([c], "raise", None, [("with_clones is None", True), ("len($$h) > 1", True)]) or find_cases([c], "raise", None, [("with_clones is None", True), ("$h", True)]) for c in amb)
     obs.append(ctx.ob("FRAME", ["C04", "C13"], f, "set_data on a clone requires a with_clones decision", None, ok, ""))
     return obs
 
@@ -639,25 +811,60 @@ def search(ctx: Ctx) -> List[Ob]:
     obs.append(ctx.ob("SEARCH", ["C09"], f, "_search iterates self.iterator(add_self=add_self) (pre-order), the only loop", None, ok,
                       "" if ok else "matches must come in pre-order over the searched branch, and the start node is counted against the limit like any other"))
     ys = [x for x in iter_own(f.node, into_lambda=False) if isinstance(x, (ast.Yield, ast.YieldFrom))]
+    cbv = None
     if lps:
         lp = lps[0]
         v = norm(lp.target)
-        first = lp.body[0]
-        ok = match(f"if not $cb({v}):\n    continue", first) is not None
-        obs.append(ctx.ob("SEARCH", ["C09"], f, "non-matching nodes are skipped, matching ones yielded", lp, ok, "" if ok else "selection inverted or missing"))
+        inside_ids = {id(x) for x in ast.walk(lp)}
         inside = [x for st in lp.body for x in ast.walk(st) if isinstance(x, ast.Yield)]
+        ok: Optional[bool] = None
+        if len(inside) == 1:
+            atoms = [(e, pol) for e, pol in path_conds(ctx, f, inside[0]) if id(getattr(e, "_orig", e)) in inside_ids and "max_results" not in norm(e)]
+            sel = [(e, pol) for e, pol in atoms if isinstance(e, ast.Call) and isinstance(e.func, ast.Name) and [norm(a_) for a_ in e.args] == [v]]
+            if len(sel) == 1 and len(atoms) == 1:
+                ok = sel[0][1] is True
+                cbv = sel[0][0].func.id
+            elif atoms:
+                ok = None
+            else:
+                ok = False
+        obs.append(ctx.tri("SEARCH", ["C09"], f, "non-matching nodes are skipped, matching ones yielded", lp, ok, "selection inverted or missing"))
         ok = len(inside) == 1 and norm(inside[0].value) == v and len(ys) == 1
         obs.append(ctx.ob("SEARCH", ["C09"], f, "each match is yielded once, inside the counted loop", lp, ok,
                           "" if ok else "a yield outside the counted loop escapes the result limit"))
-    ch = [n for n in f.body if isinstance(n, ast.If) and match("callable(match)", n.test) is not None]
-    ok = len(ch) == 1
-    if ok:
-        tb = {(norm(t) if t is not None else "else"): b for t, b in _if_chain(ch[0])}
-        ok = set(tb) == {"callable(match)", "isinstance(match, str)", "isinstance(match, (list, tuple))", "else"}
-        if ok:
-            ok = has("$cb = match", tb["callable(match)"]) and has("re.compile(pattern=match)", tb["isinstance(match, str)"]) \
-                and has("re.compile(pattern=match[0], flags=match[1])", tb["isinstance(match, (list, tuple))"]) and has("$n._data is match", tb["else"])
-    obs.append(ctx.ob("SEARCH", ["C09"], f, "matcher: callable as is, str -> regex, (pattern, flags) -> regex with flags, else data identity", None, ok, ""))
+    ok = None
+    if cbv is not None:
+        table: Dict[str, str] = {}
+        for n, e in find(f"{cbv} = $$v", f.node):
+            pcs = path_conds(ctx, f, n)
+            pos = [norm(a_) for a_, pol in pcs if pol and "match" in norm(a_)]
+            key = pos[0] if len(pos) == 1 else ("else" if not pos else " and ".join(sorted(pos)))
+            val = e["$$v"]
+            if isinstance(val, ast.Lambda):
+                body = val.body
+                arg = val.args.args[0].arg if val.args.args else "?"
+                if isinstance(body, ast.Call) and isinstance(body.func, ast.Attribute) and isinstance(body.func.value, ast.Name):
+                    src = reaching_values(ctx, f, n, body.func.value)
+                    table[key] = f"lambda: {norm(src[0]) if len(src) == 1 else '?'}.{body.func.attr}({', '.join(norm(a_).replace(arg, 'N') for a_ in body.args)})"
+                else:
+                    table[key] = "lambda: " + norm(body).replace(arg, "N")
+            else:
+                table[key] = norm(val)
+        want = {
+            "callable(match)": "match",
+            "isinstance(match, str)": "lambda: re.compile(pattern=match).fullmatch(N.name)",
+            "isinstance(match, (list, tuple))": "lambda: re.compile(pattern=match[0], flags=match[1]).fullmatch(N.name)",
+            "else": "lambda: N._data is match",
+        }
+        alt = {"isinstance(match, str)": {"lambda: re.compile(match).fullmatch(N.name)"},
+               "isinstance(match, (list, tuple))": {"lambda: re.compile(match[0], match[1]).fullmatch(N.name)", "lambda: re.compile(match[0], flags=match[1]).fullmatch(N.name)"},
+               "else": {"lambda: N.data is match"}}
+        if set(table) == set(want):
+            ok = all(table[k] == want[k] or table[k] in alt.get(k, ()) for k in want)
+            why = "; ".join(f"{k}: {table[k]}" for k in want if not (table[k] == want[k] or table[k] in alt.get(k, ())))
+        else:
+            why = f"cases {sorted(table)}"
+    obs.append(ctx.tri("SEARCH", ["C09"], f, "matcher: callable as is, str -> regex, (pattern, flags) -> regex with flags, else data identity", None, ok, why if ok is False else "matcher dispatch not recognised"))
     g = m.func("Node.find_all")
     ok = has("self._search(match, add_self=add_self, max_results=max_results)", g.node)
     obs.append(ctx.ob("SEARCH", ["C09"], g, "find_all collects _search(match, add_self, max_results) in order", None, ok, ""))
